@@ -4,7 +4,7 @@
    the append-offset arithmetic are the ones goextract read from /repo on this
    run (Generated/C12Oci.v). *)
 From Apko Require Import Base.Prelude Base.C12Lib Generated.C12Oci Model.Oci Spec.OciSpec
-  Proofs.OciProofs.
+  Proofs.OciProofs Proofs.OciScanProofs.
 From Coq Require Import Permutation Sorted.
 Open Scope string_scope. Open Scope list_scope.
 
@@ -24,6 +24,38 @@ Print Assumptions c12_append_offset.
 
 Example c12_append_offset_on_boundary : append_offset 1536 512 = 2048%Z /\ append_offset 1536 511 = 2048%Z /\ append_offset 1536 513 = 2560%Z.
 Proof. vm_compute. auto. Qed.
+
+(* The scan loop that produces [pos] and [size], over an abstract tar stream.  For
+   EVERY list of members (any number, any count of header blocks - PAX / GNU
+   extension headers included -, any sizes) followed by the end-of-archive marker,
+   the header scan loop of BuildIndex (its statements translated by goextract:
+   scan_body; the reader sits unbuffered on the file, the position after Next() is
+   the end of the header blocks, data is skipped lazily; the file is rewound first:
+   scan_rewinds) followed by the translated arithmetic yields exactly the offset of
+   the first end-of-archive block: the appended members continue the archive, no
+   byte of a member is overwritten and no zero block is left in between.  The scan
+   never fails, panics (hdr is never nil where hdr.Size is read) or runs out of fuel. *)
+Theorem c12_append_offset_scan : forall ms,
+  Forall (fun m => (1 <= m_hdr m)%Z /\ (0 <= m_size m)%Z) ms ->
+  scan_offset ms = Ok (stream_len ms) /\ scan_rewinds = true.
+Proof. intros ms W. exact (conj (scan_offset_is_end_of_archive ms W) eq_refl). Qed.
+Print Assumptions c12_append_offset_scan.
+
+(* a member of 512 bytes behind a PAX-extended one: header blocks 3 and 1; and the
+   reason the rewind matters: from the end of the file the scan sees nothing and
+   the manifests would overwrite the archive from offset 0 *)
+Example c12_append_offset_scan_example :
+  scan_offset [{| m_hdr := 3; m_size := 10 |}; {| m_hdr := 1; m_size := 512 |}] = Ok 3072%Z /\
+  reader_trace 0 [{| m_hdr := 3; m_size := 10 |}; {| m_hdr := 1; m_size := 512 |}] = [(1536, 10); (2560, 512)]%Z /\
+  scan_offset [] = Ok 0%Z.
+Proof. vm_compute. auto. Qed.
+
+Theorem c12_scan_without_rewind_refuted : forall ms,
+  (do env <- scan_loop (S (S (List.length ms)))
+       {| s_rest := []; s_pos := stream_len ms + 1024; s_pend := 0; s_cur := None; s_err := ENone; s_env := [] |};
+   Ok (append_offset (ilookup pad_pos_var env) (ilookup pad_size_var env))) = Ok 0%Z.
+Proof. exact no_rewind_offset_zero. Qed.
+Print Assumptions c12_scan_without_rewind_refuted.
 
 (* the pre-fix arithmetic (newOffset += 512 - newOffset % 512, unconditionally)
    is refuted by any member ending on a block boundary: kept as the regression
